@@ -291,7 +291,7 @@ EXTRA_TEXT5 = {
     "C15": " Round 5: S15-network uses one-character set names in every other history (the null label '-1' is longer).",
     "C16": " Round 5: S16-multiarea adds EMPTY polygon rows to 30% of the area layers.",
     "C17": " Round 5: S17 also calls the crop with each of its two flags flipped, on the base input and on one with a multi-part trace, cold then warm in both orders.",
-    "C18": " Round 5: item SampleCell regenerates populate_sample_cell with its nested helpers; C18_generated_sample_cell / C18_generated_sample_cell_resolved (what a cell reports without / with per-cell extraction); stream S18-resolve (per-cell topology mode on a trace-only Network vs the Network with topology).",
+    "C18": " Round 5: item SampleCell regenerates populate_sample_cell with its nested helpers; C18_generated_sample_cell / C18_generated_sample_cell_resolved (what a cell reports without / with per-cell extraction); stream S18-resolve (per-cell topology mode on a trace-only Network vs the Network with topology: no exception, identical tables) exercised the known F17 (TypeError for a circle without traces), repaired in /repo.",
     "C19": " Round 5: S19-network also leaves branch / node outputs to their default paths, with network names containing a dot, a blank or a suffix; S19-tracevalidate inputs have a text column with missing values.",
     "C20": " Round 5: S20-circles judges radius and containment against the circle the sampler was GIVEN (all samplers of a run share one name).",
 }
